@@ -24,7 +24,7 @@ from .. import session
 
 PROP = "C15"
 RULE = (
-    "project variants {black-clean files, unclean files, format-command (cat: a subprocess formatter that changes nothing)} x flag sets {create,fix,trim,update / create,fix}: 2 test files with 3 outsourced externals, "
+    "project variants {black-clean files, unclean files, format-command (cat: a subprocess formatter that changes nothing), hash-length=64 (complete hash names)} x flag sets {create,fix,trim,update / create,fix}: 2 test files with 3 outsourced externals, "
     "pending create/fix/trim/update changes and one HasRepr value needing an import; fault space = every boundary of the recorded session-end trace (quick: every distinct boundary "
     "name x position class first/middle/last occurrence; thorough: every index) x {raise, kill}, plus 3 black faults x call index and 8 format-command faults; case = one faulted session; "
     "non-trivial = the fault was actually injected (inject event in the audit log / formatter fault observed); distinct = (boundary name, position class, fault kind, variant)."
@@ -59,6 +59,9 @@ def project(variant, rng):
     files["helper_types.py"] = 'class Weird:\n    def __init__(self, n):\n        self.n = n\n\n    def __repr__(self):\n        return f"<Weird {self.n}>"\n\n    def __eq__(self, other):\n        return other.n == self.n if type(other) is Weird else NotImplemented\n'
     if variant == "cmd_cat":
         files["pyproject.toml"] = '[tool.inline-snapshot]\nformat-command="cat"\n'
+    if variant == "hash64":
+        # complete hash names in the source (no `*`): persisting has to find the -new file by the complete name (seeded round 6)
+        files["pyproject.toml"] = "[tool.inline-snapshot]\nhash-length=64\n"
     return files
 
 
@@ -131,9 +134,10 @@ def run_shard(args):
     out = {"evaluations": 0, "signatures": set(), "samples": [], "violations": [], "counters": C, "inconclusive": []}
     rng = random.Random(f"{args.seed}/{PROP}/{args.shard}")
     seed_parity = args.seed % 2
-    variants = [("clean", ["--inline-snapshot=create,fix,trim,update"]), ("unclean", ["--inline-snapshot=create,fix"]), ("cmd_cat", ["--inline-snapshot=create,fix,trim,update"])]
+    variants = [("clean", ["--inline-snapshot=create,fix,trim,update"]), ("unclean", ["--inline-snapshot=create,fix"]), ("cmd_cat", ["--inline-snapshot=create,fix,trim,update"]), ("hash64", ["--inline-snapshot=create,fix,trim,update"])]
+    NV = len(variants)
     if tier == "quick":
-        variants = [variants[args.shard % 3]]
+        variants = [variants[args.shard % NV]]
     jobs = []
     for vname, fargs in variants:
         files = project(vname, rng)
@@ -190,7 +194,7 @@ def run_shard(args):
                 jobs.append((vname, fargs, files, expected_new, None, "format-command:" + cmdk, "fmt", ("cmd", cmd, None)))
     # in quick mode spread the jobs of the (shard % 3) variant over the shards that share it
     if tier == "quick":
-        mates = [s for s in range(args.nshards) if s % 3 == args.shard % 3]
+        mates = [s for s in range(args.nshards) if s % NV == args.shard % NV]
         jobs = [j for i, j in enumerate(jobs) if i % len(mates) == mates.index(args.shard)]
     else:
         jobs = [j for i, j in enumerate(jobs) if i % args.nshards == args.shard]
